@@ -14,7 +14,7 @@ from fractions import Fraction as F
 import numpy as np
 import astropy.units as u
 
-from pbmc import bind_repo, report, factory
+from pbmc import bind_repo, report, factory, history
 from pbmc.exact import time_days as T, hz, sec, fr, ULP_T, round_half_even, unit_scale
 from pbmc.oracles import dispersion
 
@@ -232,6 +232,8 @@ def incoh_case(case, res):
                 break
         else:
             res.hits["sample_rate assigned between dedispersions"] += 1
+        history.reuse_buffer(res, case, z0, [("incoherent_dedispersion", lambda q_: pb.incoherent_dedispersion(q_, dmq, ref_freq=q_.max_freq))],
+                             "incoherent")
     # Dask-backed twin, channels chunked unequally: same samples, same metadata (the per-sample tracing above is the reference)
     if nchan >= 3 and N >= 6:
         import dask.array as da
@@ -356,7 +358,7 @@ def check_case(case):
 def main(argv=None):
     return report.run_check(
         PID, gen_cases=gen_cases, check_case=check_case, describe=describe,
-        required_hits=["delay law triples", "infinite reference frequency", "DM in a non-default unit", "negative DM", "every returned sample traced",
+        required_hits=["buffer overwritten between calls", "delay law triples", "infinite reference frequency", "DM in a non-default unit", "negative DM", "every returned sample traced",
                        "start_time moved", "no start time (relative alignment only)",
                        "channels realigned by different delays", "delays of both signs (reference inside band)",
                        "all delays one sign (reference outside band)", "no valid instant in span: raise/empty accepted", "dask-backed input with unequal channel chunks", "DM object updated in place", "sample_rate assigned between dedispersions"],
